@@ -126,20 +126,23 @@ func TestVerifC20ExpPool(t *testing.T) {
 			secrets := zkproof.NewSecretMerge(&ap, &bp, &np, &rp)
 			s := newExpProofStructure("a", "b", "n", "r", 3)
 			ls, lp = nil, nil
-			body := func() {
+			var body func()
+			if phase == "commitmentsFromSecrets" {
+				body = func() { ls, _ = s.commitmentsFromSecrets(g, nil, &bases, &secrets) }
+			} else {
+				// the proof is built outside the exploration (the hooks pass through when no exploration is
+				// active): only the reconstruction pool runs under the scheduler
 				var commit expProofCommit
 				ls, commit = s.commitmentsFromSecrets(g, nil, &bases, &secrets)
-				if phase == "commitmentsFromProof" {
-					proof := s.buildProof(g, ch, commit, &secrets)
-					aP, bP, nP, rP := as.buildProof(g, ch, ap), bs.buildProof(g, ch, bp), ns.buildProof(g, ch, np), rs.buildProof(g, ch, rp)
-					aP.setName("a")
-					bP.setName("b")
-					nP.setName("n")
-					rP.setName("r")
-					pb := zkproof.NewBaseMerge(&g, &aP, &bP, &nP, &rP)
-					pp := zkproof.NewProofMerge(&aP, &bP, &nP, &rP)
-					lp = s.commitmentsFromProof(g, nil, ch, &pb, &pp, proof)
-				}
+				proof := s.buildProof(g, ch, commit, &secrets)
+				aP, bP, nP, rP := as.buildProof(g, ch, ap), bs.buildProof(g, ch, bp), ns.buildProof(g, ch, np), rs.buildProof(g, ch, rp)
+				aP.setName("a")
+				bP.setName("b")
+				nP.setName("n")
+				rP.setName("r")
+				pb := zkproof.NewBaseMerge(&g, &aP, &bP, &nP, &rP)
+				pp := zkproof.NewProofMerge(&aP, &bP, &nP, &rP)
+				body = func() { lp = s.commitmentsFromProof(g, nil, ch, &pb, &pp, proof) }
 			}
 			return vsched.Scenario{Body: body, Check: func(x *vsched.Exec) {
 				r.Eval()
@@ -169,7 +172,6 @@ func TestVerifC20ExpPool(t *testing.T) {
 				}
 			}}
 		}
-		// in the commitmentsFromProof phase only the second pool is of interest, but both run under the scheduler
 		res := vsched.Explore(vsched.Options{MaxPreemptions: bound, Deadline: deadline, Shard: r.Shard, Shards: r.Shards, MaxSteps: 3000}, fresh)
 		r.Schedules += int64(res.Executions)
 		r.States += res.Points
